@@ -623,6 +623,10 @@ def build(F: Facts, g: Optional[Grammar] = None) -> LexModel:
                     isinstance(n_, ast.Attribute) and n_.attr == 'value' and isinstance(n_.ctx, ast.Store) for n_ in ast.walk(r.func)):
                 # the rule matches one fixed text and never re-assigns t.value: t.value is that text throughout
                 ov_ = {('attr', tparam, 'value'): ('const', next(iter(rm.texts)))}
+            if tparam is not None and not any(isinstance(n_, ast.Attribute) and n_.attr == 'type' and isinstance(n_.ctx, ast.Store) for n_ in ast.walk(r.func)):
+                # PLY sets t.type to the name of the rule before calling it; a rule that does not re-type its token reads that name
+                ov_ = dict(ov_ or {})
+                ov_[('attr', tparam, 'type')] = ('const', r.name)
             rm.paths = SymExec(F, fi, overrides=ov_).run()
             rets = []
             for pth in rm.paths:
